@@ -2,7 +2,7 @@
    (Gen/KernelsGen.v, harness/pytrans.py) equal the hand-written model definitions the property theorems
    are about, for every Scalar instance.  Re-checked at every run against what the code says now. *)
 From Coq Require Import ZArith List.
-From GM Require Import Base.Res Base.Scalar Base.Vec Model.Aux Model.MC Model.Pbc Model.ExchangeMap Gen.KernelsGen Gen.SrcConsts.
+From GM Require Import Base.Res Base.Scalar Base.Vec Model.Aux Model.MC Model.Pbc Model.ExchangeMap Model.Transform Gen.KernelsGen Gen.SrcConsts.
 Import ListNotations.
 Local Open Scope scalar_scope.
 
@@ -73,5 +73,12 @@ Proof. reflexivity. Qed.
 Lemma restore_point_gen_eq (F : frame T) (c : V3 T) :
   restore_point_gen c (forig F) (fmat F) = Ok (restore F c).
 Proof. reflexivity. Qed.
+
+(* the arithmetic of the bond-restoring loop of move_mol_atom (one repositioning) *)
+Lemma pull_gen_eq (p1 p2 : V3 T) (bond : T) : pull_gen p1 p2 bond = pull p1 p2 bond.
+Proof.
+  unfold pull_gen, pull, vdiv_chk.
+  destruct (vnorm (vsub p1 p2) =? s0); reflexivity.
+Qed.
 
 End Eq.
